@@ -88,3 +88,8 @@ chk('C17', 'model_checking',
     'Monitors in mc/refmodels/proto_uart.py trusted; ratios n in {2..6,8} (4..16 clocks per bit), alphabets of 6/16 bytes closed under sequences plus all 256 values pairwise with their complement; consumer stall bounded by 1 (quick) / 8 (thorough) bit periods; <= 2 outstanding bytes. One known finding (F-C17-1) is listed in known_findings.json.',
     'explicit-state model checking of the closed-loop implementation with environment and monitor automata',
     'DESIGN.md 4/C17')
+chk('C18', 'exploration',
+    'Schematic(obj, placeAndRoute=True) is run headless on every structural node of the design catalogue and on every small netlist in stated exhaustive sub-spaces (wrapper with <= 2 in / <= 2 out ports and up to 2-4 child instances from {Not, And2, Reg, Mux2, a two-output block}, every wiring in which all wires are driven, both creation orders); the oracle checks termination, one symbol per child/port present once in the symbol matrix, no overlaps, and per wire a connected net figure touching the real driver pin, every real reader pin and no foreign pin, with the real netlist read from the py4hw ports.',
+    'Connectivity oracle in mc/refmodels/schem.py trusted; set-iteration orders inside schematic.py are pinned to two orders; routed polylines (pixels) are not inspected; n >= 3 only on the stated sub-spaces.',
+    'bounded exhaustive netlist enumeration with a structural connectivity oracle',
+    'DESIGN.md 4/C18')
